@@ -98,7 +98,7 @@ func check(c Case) (o ev.Outcome) {
 	}
 	o.NonTrivial = (explicit > 0 || output > 0) && (foreignCopies > 0 || subContent > 0)
 	ev.Guard(&o, "compare", func() {
-		schema.CompareModules(&o, c.Set, obs, trees, canon.DiffOpts{NS: true, ReadOnly: true, SkipImplicitCaseNS: true}, "C12", "derived-attributes")
+		schema.CompareModules(&o, c.Set, obs, trees, canon.DiffOpts{NS: true, ReadOnly: true}, "C12", "derived-attributes")
 	})
 	return o
 }
